@@ -17,6 +17,14 @@ def run(chk, recorder="prefix-record", tag="c08"):
         n = lines_of(run_harness(yv, [recorder, chk.seed * 100 + i, 2 if quick else 6, 50 if quick else 200, tf]))[0]["events"]
         jobs.append((tf, n))
 
+    # indicators: initialised with a candle and fed that candle (values constant up to rounding, signals constant while the
+    # values are bit-constant); k extra leading copies do not change the later results
+    if recorder == "prefix-record":
+        for i in range(4 if quick else 16):
+            tf = os.path.join(wd, "ind_%d.ndjson" % i)
+            n = lines_of(run_harness(yv, ["ind-prefix-record", chk.seed * 100 + i, 3 if quick else 6, 80 if quick else 300, tf]))[0]["events"]
+            jobs.append((tf, n))
+
     def val(job):
         ok, info, r = tlc_trace("Trace_Prefix", "Trace_Prefix.cfg", job[0], timeout=3000)
         return job, ok, info, r
@@ -31,6 +39,8 @@ def run(chk, recorder="prefix-record", tag="c08"):
             start = max(i for i in range(k + 1) if evs[i]["ev"] == "pre_new")
             p = evs[start]
             phase = "constant" if evs[k]["ev"] == "pre_const" else "later-outputs"
+            if p.get("class") == "ind" and "s" in evs[k] and evs[k]["ev"] == "pre_pair" and evs[k]["s"] != evs[k]["sk"]:
+                phase = "later-signals"
             chk.finding("%s:prehistory:%s" % (p["subject"], phase), {"stage": "B:trace", "trace": job[0], "program": p,
                                                                     "rejected_at": info, "step_in_program": k - start})
     chk.cov["traces_validated_against_impl"] += len(jobs)
